@@ -62,7 +62,7 @@ ENTRY = {
                        + _all_of(idx, "distance3d.containment", "distance3d.containment_test") + cg.roots(idx, "distance3d.mesh::make_convex_mesh")
                        + [f for f in idx.module("distance3d.geometry").functions.values() if f.name.startswith("support_function_")],
     # "...agree with the collider's support function": the closed-form support functions are the reference the predicates must agree with
-    "C13": lambda idx: cg.roots(idx, "distance3d.mesh::make_convex_mesh") + [f for f in idx.module("distance3d.containment_test").functions.values() if f.name.startswith("points_in_")]
+    "C13": lambda idx: cg.roots(idx, "distance3d.mesh::make_convex_mesh") + [f for n in ("_cylinder", "_disk", "_box", "_ellipsoid") for f in idx.module("distance3d.distance." + n).functions.values() if f.name.startswith("point_to_")] + [f for f in idx.module("distance3d.containment_test").functions.values() if f.name.startswith("points_in_")]
                        + [f for f in idx.module("distance3d.geometry").functions.values() if f.name.startswith("support_function_")],
     "C14": lambda idx: _all_of(idx, COLL, "distance3d.mesh"),
     "C15": lambda idx: _all_of(idx, HY + "_tetrahedron_intersection", HY + "_halfplanes", HY + "_barycentric_transform", HY + "_interface", HY + "_forces"),
